@@ -24,6 +24,7 @@ type instance struct {
 	mem     storage.Storage
 	addr    string // TCP address once Serve is running
 	fault   *faultStorage
+	feed    *feedBuf
 }
 
 var (
